@@ -65,6 +65,7 @@ T_SYN = [  # Transformer templates, one per patcher branch
     dict(name='demethyl', p='[C;a;M][O:1]-[C;D1]', r='[A:1]', branch='masked + deleted'),
     dict(name='ester-hydrolysis', p='[C;M](=[O;M])[O:1]-[C;z1:2]', r='[A:1]', branch='masked + deleted fragment'),
     dict(name='charge', p='[N;D1;z1:1]-[C:2]', r='[A;+:1]-[A:2]', branch='charge from replacement'),
+    dict(name='n-oxide', p='[N;D3;z1;x0:1]', r='[A;+:1]-[O;-:2]', branch='charged new atom'),
     dict(name='dehydro', p='[C;z1;h1,h2,h3:1]-[C;z1;h1,h2,h3:2]', r='[A:1]=[A:2]', branch='bond order from replacement'),
     dict(name='add-atom', p='[C;D1;h3:1]', r='[A:1]-[F:2]', branch='new atom'),
     dict(name='add-chain', p='[O;D1;z1:1]-[C:2]', r='[A:2]-[A:1]-[C:3](=[O:4])-[C:5]', branch='several new atoms bonded to each other'),
@@ -547,8 +548,12 @@ def overlap_contract(texts, out):
     from chython.reactor.reactor import fix_mapping_overlap
     _CTX.update(template='fix_mapping_overlap', input=' + '.join(texts), job={'kind': 'overlap', 'inputs': list(texts)}, variant='')
     ms = [domains.parse(t) for t in texts]
-    res = fix_mapping_overlap(ms)
     out[0] += 1
+    try:
+        res = fix_mapping_overlap(ms)
+    except Exception as e:  # total on any list of molecules
+        fire('overlap', f'fix_mapping_overlap raised {type(e).__name__}: {e}', error=repr(e))
+        return
     c = Counter(n for m in res for n in m)
     if any(v > 1 for v in c.values()):
         fire('overlap', f'numbers still collide: {[n for n, v in c.items() if v > 1][:6]}')
@@ -701,6 +706,12 @@ def bounded(run):
                'stereo configurations are compared with the library\'s own sign translation (_translate_tetrahedron_sign / '
                '_translate_cis_trans_sign, C12) on a fixed neighbour order; canonical strings (C01) are the product-set keys of the Reactor contracts',
                'C07 (the matcher) supplies the matches; one product per mapping is checked against pattern.get_mapping(_cython=False)',
+               'contract reading 1: a stereo label on an atom NOT named by the template that loses a removed neighbour is not judged (the property '
+               'text says atoms not named keep their stereo; the code flushes labels only on named reaction centres) - counted as '
+               'unnamed-centre-lost-a-neighbour',
+               'contract reading 2: Reactor product sets are compared as sets of canonical strings; when they differ only for products inside the two '
+               'documented gaps of C01 (oracles/o01_gaps.py, predicates fixed in DESIGN section 2 C01: stereo labels on centres with constitutionally '
+               'equivalent substituents, symmetric cages) the stereo-free strings are compared instead and the case is counted as c01-gap-hits',
                'ring fixing on products (kekule + thiele, documented Reactor/Transformer option, default on) may re-label bond orders within {1,2,4} '
                'and move H inside ring blocks that contain a patched atom or a neighbour of a removed atom; everything is exact on the '
                'twin product made with _fix_rings=False from the same match')
